@@ -224,5 +224,15 @@ func body(r *simrt.Run, tier string) {
 }
 
 func TestSim(t *testing.T) {
-	simharness.Main(t, &simharness.Spec{ID: "C03", Body: body})
+	simharness.Main(t, &simharness.Spec{ID: "C03", Body: body, Config: config})
+}
+
+// config widens the step budget: a TokenLimiter whose recovery monitor never gets a
+// successful ping keeps pinging every 100 ms for the whole quiet period (90 s x up to
+// 4 instances); the run must reach the final "served by the store again" assertion
+// instead of ending as a budget (engine) error.
+func config(t *simrt.Tape, tier string) simrt.Config {
+	c := simharness.DefaultConfig(t, tier)
+	c.MaxSteps = 600000
+	return c
 }
